@@ -230,7 +230,7 @@ def worker(job):
                 full = [BV(cont['opcode'] & 0xFF, 8)] + list(enc.bytes)
                 n = len(full)
                 inputs = [('canonical', full, list(enc.cons))]
-                cuts = sorted(set([0, 1, n // 2, n - 1])) if tier == 'quick' else list(range(n))
+                cuts = sorted(set([0, 1, n // 2, n - 1])) if tier == 'quick' else sorted(set([0, 1, n - 1] + [(n * j) // 6 for j in range(1, 6)]))
                 for k in cuts:
                     if 0 <= k < n:
                         inputs.append(('truncated@%d' % k, full[:k], list(enc.cons)))
@@ -243,7 +243,7 @@ def worker(job):
                     sres = run_sync(ex, roots['s']['key'], data, cons)
                     for flavour in 'ta':
                         if tier != 'quick':
-                            use = scheds
+                            use = scheds if label == 'canonical' else (scheds[:21] + scheds[-2:])
                         elif label == 'canonical':
                             use = scheds
                         else:
@@ -304,7 +304,7 @@ def run(tier, only=None):
             for fd in r['findings']:
                 ck.violation('%s/%s' % (r['path'], fd['kind']), fd['what'], dict(fd, message=r['path']), confirmed=True)
     ck.assume('read_exact futures (tokio ReadExact, async-std ReadExactFuture) are modelled from their documented contract (vf/models.py _rex_poll); the coroutine state machines of the tokio_/astd_ readers and helpers are executed from their MIR')
-    ck.assume('schedules: all sequences over {Pending, 1 byte, 2 bytes, everything} up to length 2 (quick) / 3 (thorough), plus single-byte delivery with and without a Pending before every byte (quick: truncated / arbitrary inputs use the first six and the byte-by-byte schedule); inputs: canonical encodings of the first shapes, truncations, arbitrary bytes of the same length')
+    ck.assume('schedules: all sequences over {Pending, 1 byte, 2 bytes, everything} up to length 2 (quick) / 3 (thorough), plus single-byte delivery with and without a Pending before every byte (quick: truncated / arbitrary inputs use the first six and the byte-by-byte schedule; thorough: all of length <= 2 and both byte-by-byte schedules); truncations at 4 (quick) / 8 (thorough) positions; inputs: canonical encodings of the first shapes, truncations, arbitrary bytes of the same length')
     ck.assume('write variants build a Vec with the same write_into_vec and hand it to write_all once (checked structurally by C01 on write_into_vec); world tokio/async-std header readers are the same source text as the sync ones checked in C02-C (not re-executed here)')
     return ck.finish({'states': max(tot['runs'], 1), 'transitions': max(tot['runs'] * 3, 1), 'traces_validated_against_impl': 0, 'messages': tot['messages'], 'inputs': tot['inputs'], 'async_runs_compared': tot['runs'],
                       'schedules_per_input': nsched, 'functions_encoded_count': len(fns), 'functions_encoded': sorted(f for f in fns if 'tokio' in f or 'astd' in f)[:60],
